@@ -28,3 +28,12 @@ For each change i in 1..3 write into /tmp/mut-{pid}/out/<i>/ :
   - demo.py     : a small standalone program (run as `cd <repo root> && /venv/bin/python demo.py`) that exits 0 and prints PASS on the unchanged code and exits 1 and prints FAIL (with the observed vs expected values) on the changed code; it must exercise the property through the public behaviour
   - notes.md    : which clause of the property it breaks, what exactly is needed for it to manifest, and the pytest pass/fail counts before and after.
 Verify each demo both ways yourself (`git diff > p.diff; git apply -R p.diff; …; git apply p.diff` — do NOT use `git stash`: the stash is shared by all worktrees of /repo and other people work there concurrently). Reset the worktree to HEAD between changes (`git -C {wt} checkout -- .`). When finished, remove the worktree with `git -C /repo worktree remove --force {wt}` (keep /tmp/mut-{pid}/out) and reply with a short summary of the three changes.""")
+
+# later rounds: a hint naming mechanisms that earlier rounds had not used (usage: mutant_prompt.py Cxx [4|5])
+HINTS = {
+    "4": """Diversity hint: go for mechanisms that a systematic input-enumerating checker would be least likely to exercise — state shared between objects or calls (class-level attributes, caches keyed by partial information, module-level tables mutated in place), dtype width / overflow / signedness at sizes just past a power of two, rarely used public entry points and keyword arguments documented in the docstrings, views vs copies (results aliasing inputs or each other), behaviour that differs only for the 2nd/3rd call or chunk, interactions of two features (e.g. gzip x CRLF x missing final newline x lazy), values at the edge of a column's range, empty rows/fields/files in the middle of non-empty ones.""",
+    "5": """Diversity hint(this is a late round: the obvious places have been tried). Prefer changes of these kinds, each needing a NARROW trigger: (1) the boundary between two code paths selected by a data-dependent predicate (fast path vs generic path, "all rows same length" vs ragged, contiguous vs view, sorted vs unsorted, one chunk vs several) where only one side is changed; (2) the dtype of an intermediate (int32/uint8/uint16/float32 where int64/float64 is needed) so that only large values, long rows, many rows or many groups overflow or lose precision; (3) ordering, tie-breaking and stability (equal keys, duplicated entries, already-sorted or reverse-sorted input); (4) off-by-one at the empty / singleton / exactly-full case of an inner structure that is not empty overall (an empty row between non-empty rows, a field of width 0, a chromosome with no entries between two that have some); (5) NumPy scalar vs Python int vs 0-d array arguments, negative zero, NaN, bool where int is expected; (6) behaviour that is correct on the first use of an object and wrong on a later use (after a write, after a field was cached, after iteration was started and abandoned); (7) a silent fallback: an exception handler or default branch that turns what used to be an error into a plausible value. Avoid anything that a straightforward enumeration of small inputs with every chunk size would expose.""",
+}
+if len(sys.argv) > 2 and sys.argv[2] in HINTS:
+    print()
+    print(HINTS[sys.argv[2]])
